@@ -334,6 +334,10 @@ func c09Faults() []c09Fault {
 		{Class: "write-failure", Variant: "ancestor-of-output-dir-is-a-file", Levels: []string{""}, Apply: func(b *c09Base, _ string, _ *simrt.Plan) {
 			b.proj.Aux["mocks/example.com"] = "a file where a directory is needed\n"
 		}},
+		{Class: "write-failure", Variant: "file-name-longer-than-the-file-system-allows", Levels: []string{""}, Apply: func(b *c09Base, _ string, _ *simrt.Plan) {
+			// 256 bytes: one more than NAME_MAX; the mock can only be written under another name
+			b.level("interface").Set("filename", strings.Repeat("n", 253)+".go")
+		}},
 		{Class: "write-failure", Variant: "existing-file-and-no-force-file-write", Levels: []string{""}, Apply: func(b *c09Base, _ string, _ *simrt.Plan) {
 			b.proj.Config.Set("force-file-write", false)
 			b.proj.Aux[c09OutFile(b.tpkg().Dir)] = "package mocks\n\n// written by somebody else\n"
@@ -548,6 +552,27 @@ type Pair[K comparable, V any] interface{ Put(k K, v V) (V, bool) }
 		}},
 		{Class: "valid", Variant: "exclude-regex-without-include-regex", Apply: func(b *c09Base, _ string, _ *simrt.Plan) {
 			b.proj.Config.Set("exclude-interface-regex", ".*")
+		}},
+		// scale: more packages than any batch size a loader might use
+		{Class: "valid", Variant: "seventy-listed-packages", Apply: func(b *c09Base, _ string, _ *simrt.Plan) {
+			for k := 0; k < 70; k++ {
+				d := fmt.Sprintf("many/p%02d", k)
+				n := fmt.Sprintf("Svc%02d", k)
+				b.proj.Pkgs = append(b.proj.Pkgs, world.Pkg{Dir: d, Name: fmt.Sprintf("p%02d", k), Files: []world.SrcFile{{Name: "svc.go", Ifaces: []world.Iface{{Name: n, Methods: []int{k % len(world.MethodPool)}}}}}})
+				b.proj.Config.Sub("packages").Sub(c09Mod+"/"+d).Sub("config").Set("all", true)
+				b.expect[c09OutFile(d)] = []string{"Mock" + n}
+			}
+		}},
+		{Class: "valid", Variant: "seventy-sub-packages-of-one-recursive-package", Apply: func(b *c09Base, _ string, _ *simrt.Plan) {
+			b.proj.Pkgs = append(b.proj.Pkgs, world.Pkg{Dir: "tree", Name: "tree", Files: []world.SrcFile{{Name: "tree.go", Ifaces: []world.Iface{{Name: "Root", Methods: []int{7}}}}}})
+			b.expect[c09OutFile("tree")] = []string{"MockRoot"}
+			for k := 0; k < 70; k++ {
+				d := fmt.Sprintf("tree/s%02d", k)
+				n := fmt.Sprintf("Leaf%02d", k)
+				b.proj.Pkgs = append(b.proj.Pkgs, world.Pkg{Dir: d, Name: fmt.Sprintf("s%02d", k), Files: []world.SrcFile{{Name: "leaf.go", Ifaces: []world.Iface{{Name: n, Methods: []int{k % len(world.MethodPool)}}}}}})
+				b.expect[c09OutFile(d)] = []string{"Mock" + n}
+			}
+			b.proj.Config.Sub("packages").Sub(c09Mod+"/tree").Sub("config").Set("all", true).Set("recursive", true)
 		}},
 		{Class: "valid", Variant: "gomod-module-tab", Apply: func(b *c09Base, _ string, _ *simrt.Plan) {
 			b.proj.GoModText = "module\t" + c09Mod + "\n" + world.GoModTail
